@@ -190,11 +190,14 @@ def dp7(P, C):
         ta = f.targs
         orders = ta[1] if len(ta) > 1 and isinstance(ta[1], list) else ta[1:]
         vals = {}
+        core_signature(f)                 # establishes the roles of the locals (by what they do, not by their names)
+        roles = getattr(f, "_core_roles", {})
         for i in f.walk():
             if f.k(i) == "DeclStmt":
                 for d in f.nodes[i]["decls"]:
-                    if d.get("name") in ("nchunks", "chunk", "D") and d.get("init", -1) >= 0:
-                        vals[d["name"]] = f.nodes[d["init"]].get("cv")
+                    role = roles.get(d.get("id"), d.get("name"))
+                    if role in ("nchunks", "chunk", "D") and d.get("init", -1) >= 0:
+                        vals[role] = f.nodes[d["init"]].get("cv")
         prod = 1
         for o in orders[:-1]:
             prod *= (o + 1)
@@ -215,8 +218,183 @@ def canon_stmt(f, i, lane=None, subst=None):
     return t, names
 
 
+def core_roles(f, lane_vars=()):
+    """declaration id -> canonical role name for the locals and parameters of an evaluation core, found by what each does (not by its
+    name): the position accumulator is what indexes `coefficients`, the result is what the accumulate statement adds to, and so on.
+    A declaration whose role cannot be established keeps its own name (and then fails the phase comparison, which is the alarm)."""
+    roles = {}
+
+    def vid(i):
+        i = f.strip(i)
+        return f.nodes[i]["decl"]["id"] if f.k(i) == "DeclRefExpr" else None
+
+    def raw_sub(i):
+        n = f.nodes[i]
+        if n["k"] == "ArraySubscriptExpr":
+            return f.strip(n["ch"][0]), f.strip(n["ch"][1])
+        if n["k"] == "CXXOperatorCallExpr" and n.get("opcall") == "[]":
+            return f.strip(n["ch"][1]), f.strip(n["ch"][2])
+        return None
+
+    def is_lane(i):
+        r = raw_sub(i)
+        return bool(r) and f.k(r[1]) == "DeclRefExpr" and f.nodes[r[1]]["decl"].get("id") in lane_vars
+
+    def sub_parts(i):
+        """(base node, index node) of a subscript, for plain arrays and operator[]; SIMD lane subscripts are transparent"""
+        if i < 0:
+            return None
+        while is_lane(i):
+            i = raw_sub(i)[0]
+        r = raw_sub(i)
+        if not r:
+            return None
+        b = r[0]
+        while is_lane(b):
+            b = raw_sub(b)[0]
+        return b, r[1]
+
+    def base_member(i):
+        sp = sub_parts(i)
+        return f.nodes[sp[0]].get("member") if sp and f.k(sp[0]) == "MemberExpr" else None
+    coef_reads = [i for i in f.walk() if base_member(i) == "coefficients"]
+    for c in coef_reads:
+        idx = sub_parts(c)[1]
+        if f.k(idx) == "BinaryOperator" and f.nodes[idx]["op"] == "+":
+            a, b = vid(f.nodes[idx]["ch"][0]), vid(f.nodes[idx]["ch"][1])
+            if a is not None:
+                roles.setdefault(a, "tablepos")
+            if b is not None:
+                roles.setdefault(b, "i")
+        # weights := coefficients[...]
+        par = f.parent[c]
+        while par >= 0 and f.k(par) in core.IMPLICIT_ONLY:
+            par = f.parent[par]
+        if par >= 0 and f.k(par) == "CallExpr" and (f.nodes[par].get("callee") or {}).get("name") == "init":
+            w = vid(f.args(par)[0])
+            if w is not None:
+                roles.setdefault(w, "weights")
+    wid = [k for k, v in roles.items() if v == "weights"]
+    # accumulate statement: `R += ... * (coefficient read | weights)`
+    for i in f.walk():
+        n = f.nodes[i]
+        if n["k"] == "CompoundAssignOperator" and n["op"] == "+=" or (n["k"] == "CXXOperatorCallExpr" and n.get("opcall") == "+="):
+            lhs, rhs = (n["ch"][0], n["ch"][1]) if n["k"] == "CompoundAssignOperator" else (n["ch"][1], n["ch"][2])
+            inner = set(f.walk(rhs))
+            if not (any(c in inner for c in coef_reads) or any(vid(x) in wid for x in inner if f.k(x) == "DeclRefExpr")):
+                continue
+            t = f.strip(lhs)
+            while sub_parts(t):
+                t = sub_parts(t)[0]
+            if vid(t) is not None:
+                roles.setdefault(vid(t), "result")
+            for x in inner:
+                sp = sub_parts(x)
+                if not sp:
+                    continue
+                if sub_parts(sp[0]):                               # two levels: localbasis[d][i]
+                    b = sub_parts(sp[0])[0]
+                    if vid(b) is not None:
+                        roles.setdefault(vid(b), "localbasis")
+                elif vid(sp[0]) is not None and vid(sp[0]) not in roles and base_member(x) is None and not is_lane(x):
+                    # one level only: not itself the base of a further (non-lane) subscript
+                    par = f.parent[x]
+                    while par >= 0 and (f.k(par) in core.IMPLICIT_ONLY or f.k(par) == "ParenExpr" or is_lane(par)):
+                        par = f.parent[par]
+                    if not (par >= 0 and raw_sub(par) and not is_lane(par)):
+                        roles.setdefault(vid(sp[0]), "basis_tree")
+    tp = [k for k, v in roles.items() if v == "tablepos"]
+    # position seed: tablepos += (P[n] - order)*strides[n]; sibling A[n] = 0; the enclosing loop's variable
+    for i in f.walk():
+        n = f.nodes[i]
+        if n["k"] == "CompoundAssignOperator" and n["op"] == "+=" and vid(n["ch"][0]) in tp:
+            for x in f.walk(n["ch"][1]):
+                sp = sub_parts(x)
+                if sp and vid(sp[0]) is not None and f.nodes[f.strip(sp[0])]["decl"]["kind"] == "ParmVar" and vid(sp[0]) not in roles:
+                    roles[vid(sp[0])] = "centers"
+                    L = next((a for a in f.ancestors(i) if f.k(a) == "ForStmt"), None)
+                    if L is not None:
+                        for y in f.walk(f.nodes[L]["body"]):
+                            ap = f.nodes[y]
+                            if ap["k"] == "BinaryOperator" and ap["op"] == "=" and sub_parts(f.strip(ap["ch"][0])) and f.nodes[f.strip(ap["ch"][1])].get("cv") == 0:
+                                a = vid(sub_parts(f.strip(ap["ch"][0]))[0])
+                                if a is not None:
+                                    roles.setdefault(a, "decomposedposition")
+    # chunk count: the scalar that is multiplied up
+    for i in f.walk():
+        n = f.nodes[i]
+        if n["k"] == "CompoundAssignOperator" and n["op"] == "*=" and vid(n["ch"][0]) is not None:
+            roles.setdefault(vid(n["ch"][0]), "nchunks")
+    # ... or that is defined from the compile-time product nchunks<...>() (known-order cores)
+    for i in f.walk():
+        if f.k(i) == "DeclStmt":
+            for d in f.nodes[i]["decls"]:
+                if d.get("init", -1) >= 0 and any((f.nodes[y].get("callee") or {}).get("name") == "nchunks" for y in f.walk(d["init"])):
+                    roles.setdefault(d["id"], "nchunks")
+    nch = [k for k, v in roles.items() if v == "nchunks"]
+    dp_ = [k for k, v in roles.items() if v == "decomposedposition"]
+    bt = [k for k, v in roles.items() if v == "basis_tree"]
+    # loop variables by what their loop does
+    for L in f.walk():
+        if f.k(L) != "ForStmt":
+            continue
+        n = f.nodes[L]
+        lv = None
+        ini = n.get("init", -1)
+        if ini >= 0 and f.k(ini) == "DeclStmt" and f.nodes[ini]["decls"]:
+            lv = f.nodes[ini]["decls"][0]["id"]
+        elif ini >= 0:
+            a = f.strip(ini)
+            if f.k(a) == "BinaryOperator" and f.nodes[a]["op"] == "=":
+                lv = vid(f.nodes[a]["ch"][0])
+        if lv is None or lv in roles:
+            continue
+        body = list(f.walk(n["body"])) if n.get("body", -1) >= 0 else []
+        cond = list(f.walk(n["cond"])) if n.get("cond", -1) >= 0 else []
+        direct = [y for y in body if not any(f.k(a) == "ForStmt" and a != L and a in set(f.ancestors(y)) and L in set(f.ancestors(a)) for a in f.ancestors(y))]
+        def assigns_elem_of(ids, nodes):
+            for y in nodes:
+                m = f.nodes[y]
+                if m["k"] == "BinaryOperator" and m["op"] == "=" and sub_parts(f.strip(m["ch"][0])) and vid(sub_parts(f.strip(m["ch"][0]))[0]) in ids:
+                    return True
+            return False
+        if any(f.k(y) == "CompoundAssignOperator" and f.nodes[y]["op"] == "+=" and vid(f.nodes[y]["ch"][0]) in tp and
+               any(sub_parts(z) and vid(sub_parts(z)[0]) in [k for k, v in roles.items() if v == "centers"] for z in f.walk(y)) for y in direct):
+            roles[lv] = "n"                                        # seed loop
+        elif any(f.k(y) == "CompoundAssignOperator" and f.nodes[y]["op"] == "*=" and vid(f.nodes[y]["ch"][0]) in nch for y in direct):
+            roles[lv] = "n"                                        # chunk-count loop
+        elif any(f.k(y) == "BinaryOperator" and f.nodes[y]["op"] == ">" and sub_parts(f.strip(f.nodes[y]["ch"][0])) and
+                 vid(sub_parts(f.strip(f.nodes[y]["ch"][0]))[0]) in dp_ for y in cond):
+            roles[lv] = "i"                                        # carry loop
+        elif assigns_elem_of(bt, direct) and any(sub_parts(z) and vid(sub_parts(z)[0]) in dp_ for y in direct for z in f.walk(y)):
+            roles[lv] = "j"                                        # refresh loop
+        elif assigns_elem_of(bt, direct):
+            roles[lv] = "n"                                        # tree seed loop
+        elif any(vid(y) in nch for y in cond if f.k(y) == "DeclRefExpr") or any((f.nodes[y].get("callee") or {}).get("name") == "nchunks" for y in cond):
+            roles[lv] = "n"                                        # driver loop (for-form)
+    # accumulate loop bound held in a local (known-order cores)
+    for L in f.walk():
+        if f.k(L) == "ForStmt" and f.nodes[L].get("cond", -1) >= 0:
+            c = f.nodes[f.strip(f.nodes[L]["cond"])]
+            if c["k"] == "BinaryOperator" and c["op"] == "<" and roles.get(vid(c["ch"][0])) == "i":
+                b = f.strip(c["ch"][1])
+                if f.k(b) == "DeclRefExpr" and f.nodes[b]["decl"]["kind"] == "Var" and vid(b) not in roles and "cv" not in f.nodes[b]:
+                    roles[vid(b)] = "chunk"
+                elif f.k(b) == "DeclRefExpr" and f.nodes[b]["decl"]["kind"] == "Var" and vid(b) not in roles and f.nodes[b]["decl"]["name"] not in ("D", "VC"):
+                    roles[vid(b)] = "chunk"
+    # while-form counter: `if (++v == nchunks) break`
+    for y in f.walk():
+        m = f.nodes[y]
+        if m["k"] == "BinaryOperator" and m["op"] == "==" and vid(m["ch"][1]) in nch:
+            u = f.strip(m["ch"][0])
+            if f.k(u) == "UnaryOperator" and vid(f.nodes[u]["ch"][0]) is not None:
+                roles.setdefault(vid(f.nodes[u]["ch"][0]), "n")
+    return roles
+
+
 def core_signature(f):
     """ordered list of canonical statements of one evaluation core (scalar or vector), modulo the documented substitutions."""
+    f._core_roles = {}
     is_vec = "multibasis" in f.name
     ta = f.targs
     out = []
@@ -235,6 +413,7 @@ def core_signature(f):
                     init = f.nodes[i]["init"]
                     if const_bound and init >= 0 and f.k(init) == "DeclStmt":
                         lane_vars.add(f.nodes[init]["decls"][0]["id"])
+    f._core_roles = core_roles(f, lane_vars)
     stmts = []
 
     def is_stmt_position(i):
@@ -310,15 +489,17 @@ def _render_core(f, i, lane_vars):
         return "NDIM" if p == "D" else "ORD"     # the cores have two kinds of non-type parameters: dimension count and order
     if k == "SizeOfPackExpr":
         return "NDIM"
+    roles = getattr(f, "_core_roles", {})
     if k == "DeclStmt":
-        return "; ".join("%s = %s" % (d["name"], R(d["init"])) if d.get("init", -1) >= 0 else d["name"] for d in n["decls"] if d.get("dk") == "Var")
+        return "; ".join("%s = %s" % (roles.get(d.get("id"), d["name"]), R(d["init"])) if d.get("init", -1) >= 0 else roles.get(d.get("id"), d["name"])
+                         for d in n["decls"] if d.get("dk") == "Var")
     if k == "DeclRefExpr":
         d = n["decl"]
         if d["kind"] == "Var" and d["name"] == "D" and "cv" in n:
             return "NDIM"
         if d["kind"] == "Var" and d["name"] in ("VC",):
             return "LANES"
-        return d["name"]
+        return roles.get(d.get("id"), d["name"])
     if k == "MemberExpr":
         if n["member"] == "ndim":
             return "NDIM"
@@ -409,6 +590,13 @@ def cl1(P, C):
     # reference phases are taken from the generic scalar core <float>
     g = [f for f in fs if f.name == "ndsplineeval_core" and f.targs == ["float"]][0]
     ref = phases(sigs[g.usr][1], g)
+    # the reference itself must show every phase: a phase whose statement no longer has the expected shape would otherwise drop out of the
+    # comparison altogether (found with own mutant c01-wrong-centre-passed: `centers[0]` in the generic core's seed went unnoticed)
+    lacking = [key for key, _pat in PHASE_PATTERNS if key not in ref]
+    C.ob("CL-1", "ndsplineeval_core<float>", "reference-phases-complete", not lacking, g.where(),
+         "the generic core shows all %d phases in their expected shape (position seed (centers[n]-order[n])*strides[n] summed over n, tree seed, "
+         "chunk count, accumulate, step, carry, refresh and their loops)" % len(PHASE_PATTERNS) if not lacking else
+         "the generic core no longer shows phase(s) %s in the expected shape: %s" % (lacking, [t for t in sigs[g.usr][1] if "tablepos" in t or "basis_tree" in t][:6]))
     n = 0
     for usr, (f, sig) in sorted(sigs.items(), key=lambda kv: (kv[1][0].name, str(kv[1][0].targs))):
         ph = phases(sig, f)
